@@ -133,6 +133,11 @@ def run(rep: Report, only_cls=None) -> None:
                 break
         rep.check(hit is None, "no-clamp-when-off", ck.cfg.label(), hit or "Network.step",
                   "engine.max is applied although all positivity options are off", key=f"unguarded|{_fn(hit or '')}")
+    # (options of an earlier step must not survive in a later compilation) the function is that of the most recent step: compile, step again, compile again (same engine)
+    from .. import compile as _CP
+
+    _CP.check_recompile(rep, rep.prog, "Engine.to_function")
+
 
 
 def _fn(where: str) -> str:
